@@ -12,7 +12,9 @@ the Cartesian order for l <= 2 (l = 3: a seeded sample in the quick tier, all 10
 blocks) and random ones above; every order/sign pattern of the labels for l <= 2 and random ones above; a
 malformed stream (labels that are not one of the four documented forms, wrong count, repeated / missing
 functions, wrong index, Cartesian lists that are not a rearrangement of the components) on which model and
-implementation must both reject (any exception = rejected); the overlap matrix of one spherical shell
+implementation must both reject (any exception = rejected); most requests are SEQUENCES of calls on one pair of
+caller-owned convention objects (list or tuple of labels, component array) that must come back unchanged, each
+result compared with the model ("right" then "left", twice "left", ...); the overlap matrix of one spherical shell
 (implementation only) must be the identity to 1e-8; once per run the generic-field model `Model/Spherical.v`
 (command 4, used by the integral checks) is compared with the exact model for l <= 4."""
 import itertools
@@ -33,7 +35,12 @@ RULE = ("generate_transformation vs exact r*sqrt(q) model: default conventions f
         "Cartesian orders: all permutations for l<=2, l=3 sampled (quick) / all 10! in blocks (thorough), random above; "
         "label order/sign patterns: all (2l+1)! * 2^(2l+1) for l<=2, random above; malformed stream (bad label syntax, "
         "count, repeats, index, bad Cartesian lists) where both sides must reject; default orders of the shell class "
-        "for every l<=10; identity overlap of one spherical shell (l<=4 quick, l<=6 thorough). A case is non-trivial "
+        "for every l<=10; identity overlap of one spherical shell (l<=4 quick, l<=6 thorough). REUSED OBJECTS (tag "
+        "'reused-objects'; every case of the default, label-pattern, random-convention, malformed and l<=2 cart-perm "
+        "streams, every 5th l=3 sample): ONE labels object (a list, or a tuple when as_tuple) and ONE component array "
+        "are handed to a sequence of 2-3 calls ('right','left','left' / 'left','left','right' / ...); after every call, "
+        "returning or raising, the objects must be element-wise what the caller built, and EVERY result of the sequence "
+        "is compared with the exact model for its side. A case is non-trivial "
         "when l>=1 (more than one function) or when it belongs to the malformed stream; distinct by the hash of the "
         "exact request; a block of permutations counts as one distinct case")
 ASSUMPTIONS = [
